@@ -181,9 +181,8 @@ def loop_facts(fn, h, body):
 
 
 EXEMPT_LOOPS = {
-    # key: (function suffix) -> reason
-    "codegen::compiler::MemoryLoc::memset": "only caller zero-fills a slot created just before, and every slot behind it is (re)initialised afterwards on every path "
-                                             "(witness notes/witness/c02c.capy prints its guards intact): no observable change could be produced, so not listed as a defect",
+    # key: (function suffix) -> reason.  Empty: the one entry that stood here (MemoryLoc::memset, "only zero-fills a fresh slot, nothing behind it is live") was
+    # wrong - `x : [3]?u8;` inside a loop zeroes four bytes of the slot behind it, which is live (seed agent C02-5's witness) - and was removed.
 }
 
 
@@ -571,6 +570,37 @@ def r02i(ctx, run):
         raise LookupError("assignment fields examined: %d" % n)
 
 
+def r02j(ctx, run):
+    """an assignment stores into its destination ONCE, a whole value of the destination's type: in compile_stmt every MemoryLoc::write_all whose target is
+    the assignment's destination is outside any loop, writes at the destination itself (not at a member offset) and no path performs two of them.
+    Storing the members of a struct literal one by one into the live destination lets the copy of one aggregate member overwrite the memory another
+    member is still copied from (`p = Pair.{ first = p.second, second = p.first }`)."""
+    F = ctx.facts
+    fn = F.fn("codegen::compiler::functions::FunctionCompiler::compile_stmt")
+    U = "codegen::compiler::functions::FunctionCompiler::compile_stmt"
+    stores = []
+    for c in fn.calls():
+        if short(c.callee) != "write_all" or "MemoryLoc" not in c.callee:
+            continue
+        target = fn.chain_operand(c.args[0], depth=14)
+        names = [short(x["callee"]) for x in chain_calls(target)]
+        # the destination of an assignment: a MemoryLoc made from the address compile_expr_with_args(dest, no_load) returned
+        if "from_addr" in names and "compile_expr_with_args" in names:
+            stores.append((c, names))
+    if len(stores) < 2:
+        raise LookupError("stores into an assignment's destination in compile_stmt: %d" % len(stores))
+    loops = fn.loops()
+    for c, names in stores:
+        in_loop = any(c.bb in body for h, body in loops)
+        offset = "with_offset" in names
+        run.check(not in_loop and not offset, c.site(), "the destination is stored into once, as a whole (line %d)" % c.ln, U, "piecewise-store-into-destination", c.file, c.ln,
+                  "compile_stmt stores into an assignment's destination %s: the destination is live while the remaining pieces are still copied from their sources, which may be "
+                  "the destination itself" % ("inside a loop" if in_loop else "at a member offset (with_offset)"))
+    twice = [(a, b) for a, _ in stores for b, _ in stores if a is not b and a.bb != b.bb and fn.can_reach(a.bb, b.bb)]
+    run.check(not twice, stores[0][0].site(), "no path stores into the destination twice", U, "two-stores-into-destination", stores[0][0].file, stores[0][0].ln,
+              "a path through compile_stmt stores into the assignment's destination at line %d and again at line %d" % ((twice[0][0].ln, twice[0][1].ln) if twice else (0, 0)))
+
+
 def rules(ctx):
     return [
         Rule("R02.a", "tag stores/loads (offset derived from discriminant_offset) move exactly one byte", 9, r02a),
@@ -580,6 +610,7 @@ def rules(ctx):
         Rule("R02.e", "every local definition and every by-value aggregate parameter is bound to a stack slot created for it (no shared storage)", 2, r02e),
         Rule("R02.h", "in-place construction of aggregates only into fresh memory: an assignment's value is complete before the destination is written", 4, r02h),
         Rule("R02.i", "an assignment compiles its destination (and its value) once on every path", 2, r02i),
+        Rule("R02.j", "an assignment stores into its destination once, a whole value (no member-wise stores into the live destination)", 3, r02j),
         Rule("R02.g", "stack slots are created per use site, never cached in a container; a call's spill slot is created for that call", 2, r02g),
         Rule("R02.f", "every MemoryLoc::write_all receives a value already converted to the type it is told to store", 5, r02f),
     ]
